@@ -606,6 +606,41 @@ def gen_history(rng, n_ops):
     return ops
 
 
+_OPNAMES = {">": "gt", "<": "lt", ">=": "ge", "<=": "le", "=": "eq", "!=": "ne"}
+
+
+def step_sexp(st):
+    """a derivation step in the syntax of the `dv-run` driver command (lean/Driver/Derive.lean)"""
+    import seqtab
+
+    k = st[0]
+    if k == "cols":
+        return "(cols (%s))" % " ".join(st[1])
+    if k in ("filt", "colfilt"):
+        return "(%s (cmp %s %s (val %s)))" % (k, st[1], _OPNAMES[st[2]], seqtab.val_sexp(st[3]))
+    if k == "slice":
+        S = lambda x: "none" if x is None else str(x)
+        return "(sl %s %s %s)" % (S(st[1]), S(st[2]), S(st[3]))
+    if k == "int":
+        return "(idx %d)" % st[1]
+    if k == "child":
+        return "(child %s)" % st[1]
+    raise ValueError(st)
+
+
+def derive_case(kind, rec, url, got, case):
+    """one correspondence case for `C14_derived_reads_reference`: the model derives along `rec` on its heap, writes
+    the request, evaluates `refSelection` and lets the server model of C04 answer the request; the implementation
+    side is the query text of the real derived proxy, the harness's own `ref_selection` and the rows really read"""
+    import seqtab
+
+    line = "dv-run s %s (%s)" % (seqtab.table_sexp(["i", "f", "t"], ROWS), " ".join(step_sexp(st) for st in rec))
+    rows_text = lambda rows: "[" + " ".join(seqtab.item_text(r if isinstance(r, tuple) else (r,)) for r in rows) + "]"
+    q = unquote(urlsplit(url).query)
+    impl = "%s %s %s" % (hx(q), rows_text(ref_selection(kind, rec)), rows_text(got))
+    return (line, impl, dict(case, derived=ops_json(rec)))
+
+
 class HistoryRun:
     """runs one user-level history on a Sim; records reads and applies the direct oracles"""
 
@@ -617,6 +652,7 @@ class HistoryRun:
         self.reads = []                             # every read value in order (for cross-session comparison)
         self.failed = False
         self.grids = []                             # grids returned by grid reads (output_grid on)
+        self.derive_cases = []                      # (model line, impl output, meta): client model ∘ server model
         self.grid_first = []                        # their content when they were returned
 
     def fail(self, what, observed, expected):
@@ -772,6 +808,11 @@ class HistoryRun:
             if got != want:
                 self.fail("a derived object reads other rows/columns than its selection names on the source rows",
                           got, want)
+            if not isinstance(got, str):
+                try:
+                    self.derive_cases.append(derive_case(kind, rec, obj.data.url, got, self.case))
+                except Exception as e:      # a value outside the driver's value domain: not a case
+                    self.ctx.tags["derive-case-skipped:" + type(e).__name__] += 1
 
 
 GRID_IDX = [(0,), (1,), (-1,), (slice(None), 1), (slice(None), slice(0, 3, 2)), (Ellipsis, slice(0, 2)), (1, slice(1, None)),
